@@ -293,11 +293,40 @@ PROPS = {
     },
     "C01": {
         "generated": True,
-        "proof_modules": ["GrolProofs.Props.C01", "GrolProofs.Precedence"],
+        "proof_modules": ["GrolProofs.Props.C01", "GrolProofs.Props.C01Rules", "GrolProofs.Precedence"],
         "theorems": ["Grol.Generated.precedences_documented", "Grol.Generated.priorities_documented",
                      "Grol.Generated.prefix_registrations_expected", "Grol.Generated.infix_registrations_expected",
                      "Grol.E.C01.int_arith", "Grol.E.C01.int_arith_wraps", "Grol.E.C01.int_div", "Grol.E.C01.int_div_truncates",
-                     "Grol.E.C01.shifts", "Grol.E.C01.prefix_ops", "Grol.E.C01.array_index"],
+                     "Grol.E.C01.shifts", "Grol.E.C01.prefix_ops", "Grol.E.C01.array_index",
+                     # the syntax-directed reference rules (lean/GrolProofs/Props/C01Rules.lean)
+                     "Grol.E.C01.deadline_reached", "Grol.E.C01.literals", "Grol.E.C01.evalI_int", "Grol.E.C01.evalI_float",
+                     "Grol.E.C01.evalI_bool", "Grol.E.C01.evalI_str", "Grol.E.C01.evalI_inf", "Grol.E.C01.infix_left_stop",
+                     "Grol.E.C01.infix_left_error", "Grol.E.C01.and_short_circuit", "Grol.E.C01.or_short_circuit",
+                     "Grol.E.C01.infix_continue", "Grol.E.C01.infixTail_stop", "Grol.E.C01.infixTail_error",
+                     "Grol.E.C01.infixTail_apply", "Grol.E.C01.infixTail_apply_array", "Grol.E.C01.and_or_apply",
+                     "Grol.E.C01.and_true", "Grol.E.C01.or_false", "Grol.E.C01.infix_plain", "Grol.E.C01.evalI_if",
+                     "Grol.E.C01.evalIf_eq", "Grol.E.C01.if_true", "Grol.E.C01.if_false_else", "Grol.E.C01.if_false_noelse",
+                     "Grol.E.C01.if_nonbool", "Grol.E.C01.if_stop", "Grol.E.C01.stmts_cons_continue",
+                     "Grol.E.C01.stmts_cons_stops", "Grol.E.C01.stmts_cons_stop", "Grol.E.C01.stmts_singleton",
+                     "Grol.E.C01.stmts_last", "Grol.E.C01.evalI_pre", "Grol.E.C01.prefix_apply", "Grol.E.C01.prefix_table",
+                     "Grol.E.C01.evalI_for", "Grol.E.C01.forSpecial_none", "Grol.E.C01.evalFor_generic",
+                     "Grol.E.C01.while_done", "Grol.E.C01.while_unroll", "Grol.E.C01.while_control", "Grol.E.C01.while_int",
+                     "Grol.E.C01.while_bad_condition", "Grol.E.C01.forInteger_done", "Grol.E.C01.forInteger_negative",
+                     "Grol.E.C01.forInteger_unroll", "Grol.E.C01.forInteger_control", "Grol.E.C01.cmpInt64_spec",
+                     "Grol.E.C01.int_compare", "Grol.E.C01.string_concat", "Grol.E.C01.array_append",
+                     "Grol.E.C01.lookup_bound", "Grol.E.C01.createOrSet_binds", "Grol.E.C01.ident_bound",
+                     "Grol.E.C01.ident_unbound", "Grol.E.C01.evalI_assign", "Grol.E.C01.evalAssignment_ident",
+                     "Grol.E.C01.assign_then_lookup", "Grol.E.C01.evalI_return_nil", "Grol.E.C01.evalI_return",
+                     "Grol.E.C01.evalI_ctl", "Grol.E.C01.return_stops_block", "Grol.E.C01.eval_depth_guard",
+                     "Grol.E.C01.eval_unwrap", "Grol.E.C01.evalI_lambda", "Grol.E.C01.evalI_call",
+                     "Grol.E.C01.evalExpressions_cons", "Grol.E.C01.finishCall_value", "Grol.E.C01.apply_is_body",
+                     "Grol.E.C01.apply_bind_error", "Grol.E.C01.apply_non_function",
+                     "Grol.E.C01.bind_one", "Grol.E.C01.bindParams_run", "Grol.E.C01.extend_plain", "Grol.E.C01.apply_plain",
+                     "Grol.E.C01.evalI_ident", "Grol.E.C01.evalI_incr_decr", "Grol.E.C01.evalI_post",
+                     "Grol.E.C01.evalI_builtin", "Grol.E.C01.evalI_arr", "Grol.E.C01.evalI_mapLit", "Grol.E.C01.evalI_idx",
+                     "Grol.E.C01.evalI_comment", "Grol.E.C01.evalI_nil_node", "Grol.E.C01.evalI_macroLit",
+                     "Grol.E.C01.evalI_func_named", "Grol.E.C01.evalI_no_fuel", "Grol.E.C01.exprs_continue",
+                     "Grol.E.C01.exprs_error", "Grol.E.C01.forInteger_named_unroll", "Grol.E.C01.for_named_is_counting"],
         "suites": [["eval", "C01"]],
         "rule": EVAL_RULE + " C01 statement: the default configuration's output/value/error flag per input equal the reference (model without cache).",
         "trusted_base": EVAL_TB,
